@@ -264,13 +264,17 @@ def r5(ctx):
             if e[0] != "agg":
                 continue
             t = agg_field(e, "time")
-            ok = t is not None and mentions_call(t, r"Option::and_then$") and mentions_name(t, "cto")
+            # `cto.and_then(|x| x.checked_add(self.time))`, or the same as an explicit match: None without a CTO, the checked sum with one
+            alts = resolve_defs(bd, sym, t, depth=3) if t is not None else []
+            isnone = lambda x: x[0] == "agg" and x[2] == "None"
+            comb = lambda x: (mentions_call(x, r"Option::and_then$") and mentions_name(x, "cto")) or (mentions_call(x, r"Time::checked_add$") and mentions_name(x, "cto"))
+            ok = bool(alts) and all(isnone(x) or comb(x) for x in alts) and any(comb(x) for x in alts)
             ctx.check(ok, "%s:time<-cto" % ty, "time = cto.and_then(..) (%s)" % expr_str(t)[:80], bd.where(b.idx), bad_detail="time = %s: the relative time is not combined with the common time of occurrence" % expr_str(t)[:80])
             fl = agg_field(e, "flags")
             ctx.check(mentions_field(fl, "flags") and mentions_call(fl, r"Flags::new$"), "%s:flags" % ty, "flags = Flags::new(self.flags)", bd.where(b.idx))
             v = agg_field(e, "value")
             ctx.check(mentions_call(v, r"Flags::(state|double_bit_state)$") and mentions_field(v, "flags"), "%s:value" % ty, "value = state bits of the flags", bd.where(b.idx))
-        cl = prog.children(bd)
+        cl = [bd] + list(prog.children(bd))
         ok = any(any(mentions_field(ctx.sym(c).call_expr(x.term), "time") for x in call_sites(c, r"Time::checked_add$")) for c in cl)
         ctx.check(ok, "%s:checked_add(self.time)" % ty, "closure adds self.time to the CTO with checked_add", bd.where(line=bd.line))
     # CTO threading on the master
